@@ -398,12 +398,22 @@ class AsyncInotifyWrapper:
                         path = paths.pop(0)
                         if path not in self.watches:
                             continue
-                        if self.watches[path] is None:
-                            # When a directory is added that was once watched,
-                            # recreate the watch right away.
-                            self._install_watch(path)
-                        # Events of files created in this directory may have been missed.
-                        for sub_path in path.iterdir():
+                        # The directory may be gone again by the time its creation is
+                        # processed, e.g. when it is created and renamed or removed right away.
+                        # Its removal is reported by an event of its own,
+                        # so the watch simply stays pending, as for any directory that is absent.
+                        # Without this, the exception ends this loop for good,
+                        # and the watch phase never reports another change.
+                        try:
+                            if self.watches[path] is None:
+                                # When a directory is added that was once watched,
+                                # recreate the watch right away.
+                                self._install_watch(path)
+                            # Events of files created in this directory may have been missed.
+                            sub_paths = list(path.iterdir())
+                        except (FileNotFoundError, NotADirectoryError):
+                            continue
+                        for sub_path in sub_paths:
                             if sub_path.is_file():
                                 self.change_queue.put_nowait((Change.UPDATED, sub_path))
                             elif sub_path.is_dir():
